@@ -335,7 +335,7 @@ def row_rewrites(prog, an, sy):
         return "%s[%s..%s]" % (k[0], k[1], k[2] if k[2] is not None else "")
     for bb, t in body.calls():
         s = short(cname(t))
-        if s not in ("Iterator::find", "Iterator::position", "Iterator::any", "Iterator::all") or len(t["args"]) != 2:
+        if s not in ("Iterator::find", "Iterator::position", "Iterator::any", "Iterator::all", "Iterator::find_map") or len(t["args"]) != 2:
             continue
         an.terms._pos = (bb, "t")
         ps = parse_seq(prog, an, sy, an.terms.operand(t["args"][0]))
@@ -348,6 +348,20 @@ def row_rewrites(prog, an, sy):
         pred = _predicate(prog, an, an.terms.operand(t["args"][1]), elem)
         if pred is None:
             continue
+        wit_value = None
+        if s == "Iterator::find_map":
+            # `find_map(|x| P(x).then_some(V(x)))` is `find(P).map(V)`: the witness is the first x with P(x), the payload V(x)
+            p0 = strip(pred)
+            if not (p0[0] == "call" and p0[1].endswith("<impl bool>::then_some") and len(p0[2]) == 2) or maps or enum:
+                continue
+            pred, vterm = p0[2][0], p0[2][1]
+            try:
+                wit_value = sy.name(vterm)
+            except Exception:
+                continue
+            if "arg90" not in wit_value:
+                continue
+            s = "Iterator::find"
         _set_elem_type(sy, base, enum)
         try:
             pos_ats = _names(sy, sy.bool_atoms(pred, True), enum, "arg90")
@@ -361,7 +375,7 @@ def row_rewrites(prog, an, sy):
             wit = "(%s as Some).0" % nm if s == "Iterator::find" and not maps else None
             out.append({"none": "%s is None" % nm, "some": "%s is Some" % nm, "witness": wit, "seq": sq, "enum": enum,
                         "forall": sorted(neg_ats), "exists": sorted(pos_ats), "index": "(%s as Some).0" % nm if s == "Iterator::position" else None,
-                        "base": sy.name(base)})
+                        "base": sy.name(base), "wit_value": wit_value})
         elif s == "Iterator::any":
             out.append({"none": "pred %s False" % nm, "some": "pred %s True" % nm, "witness": None, "seq": sq, "enum": enum,
                         "forall": sorted(neg_ats), "exists": sorted(pos_ats), "index": None, "base": sy.name(base)})
@@ -460,7 +474,7 @@ def rewrite_row(rws, atoms, value):
                 if wit:
                     if r["enum"]:
                         s_ = s_.replace(wit + ".0", "i@" + r["seq"]).replace(wit + ".1", tag)
-                    s_ = s_.replace(wit, tag)
+                    s_ = s_.replace(wit, (r.get("wit_value") or "arg90").replace("arg90", tag))
                 if idx:
                     # S[position] is the element found, the position itself is its index
                     s_ = s_.replace("Index::index(%s,%s)" % (r["base"], idx), tag).replace(idx, "i@" + r["seq"])
